@@ -108,6 +108,20 @@ func (in *Interp) registerIntrinsics(reg func(string, extFn)) {
 		in.path.NoteVals = append(in.path.NoteVals, args[0].(Str))
 		return nil
 	})
+	r("vfNoteRunes", func(in *Interp, fr *frame, fn *ssa.Function, args []Value) Value {
+		p := in.path
+		if p.NoteInts == nil {
+			p.NoteInts = map[int][]*Term{}
+		}
+		xs, _ := args[1].([]Value)
+		ts := make([]*Term, len(xs))
+		for i, x := range xs {
+			ts[i] = x.(*Term)
+		}
+		p.NoteInts[len(p.NoteVals)] = ts
+		p.NoteVals = append(p.NoteVals, args[0].(Str))
+		return nil
+	})
 	r("vfSteps", func(in *Interp, fr *frame, fn *ssa.Function, args []Value) Value {
 		return in.mkInt(in.path.Steps)
 	})
